@@ -217,7 +217,8 @@ class Engine:
     MAX_PATHS = 4000
 
     def __init__(self, contract: Contract, sigcase: dict, prop_filter=None, unroll=None,
-                 feas_timeout=3000):
+                 feas_timeout=3000, exclusions=None):
+        self.exclusions = exclusions or {}
         self.c = contract
         self.sigcase = sigcase  # param -> SigT (no OneOf)
         self.prop_filter = prop_filter
@@ -425,6 +426,14 @@ class Engine:
             goal = z3.BoolVal(False)
         elif not isinstance(goal, z3.ExprRef):
             goal = z3.BoolVal(bool(goal))
+        parts = name.split("/")
+        excl = self.exclusions.get(parts[1]) if len(parts) > 1 else None
+        if excl:
+            # known finding: the clause is proved outside the listed input class only
+            conds = [self.c.cases[cn](self.pre) for cn in excl]
+            goal = S.Implies(S.Not(S.Or(*conds)), goal)
+            if goal is True:
+                goal = z3.BoolVal(True)
         base = name
         k = 0
         while name in self.obligations:
